@@ -321,6 +321,9 @@ def r13_2(ctx):
     allowed_fns = {ROLE["execute_file"], ROLE["preprocess"], ROLE["pp_run"], ROLE["pp_run_internal"]}
     if ef:
         allowed_fns.add(ef.name)
+        for bb, t, how in rules_sched.file_spawn_sites(ctx, ef):
+            if how.startswith("via "):
+                allowed_fns.add(how[4:])      # an extracted spawn helper between execute_file and the task closure
     if cl:
         allowed_fns.add(cl.name)
     bad = []
